@@ -3,6 +3,7 @@ package props
 import (
 	"fmt"
 	"math"
+	"sync"
 
 	"github.com/advancedclimatesystems/gonnx/ops"
 	"gorgonia.org/tensor"
@@ -72,6 +73,14 @@ func c14Run(c *Ctx) {
 	if c.Idx == 1 { // one pair whose broadcast result has more than 2^24 elements (the operands are small)
 		c14Pair(c, []int{4097, 1}, []int{1, 4096}, ref.U8)
 	}
+	if c.Idx%4 == 1 {
+		for k := 0; k < 4; k++ {
+			c14ZeroExtents(c)
+		}
+	}
+	if c.Idx%16 == 3 {
+		c14SharedSource(c)
+	}
 	nEx := c14Exhaustive()
 	exCases := (nEx + c14PairsPerCase - 1) / c14PairsPerCase
 	for k := 0; k < c14PairsPerCase; k++ {
@@ -137,6 +146,173 @@ func c14Run(c *Ctx) {
 		}
 		c14Pair(c, sa, sb, dt)
 	}
+}
+
+// c14ZeroExtents: shapes with an extent of 0 (an empty batch). The rule of the statement
+// applies as it stands: a pair of extents is compatible when equal or containing a 1, so
+// (0,1) and (0,0) are compatible - the stretched axis has 0 entries - and (0,k>1) is not.
+// There are no elements to read; shapes, errors and the untouched sources are checked.
+func c14ZeroExtents(c *Ctx) {
+	r := c.R
+	sa := r.Shape(1, 4, 4, 64)
+	sa[r.Intn(len(sa))] = 0
+	if r.Chance(0.2) {
+		sa[r.Intn(len(sa))] = 0
+	}
+	rank := r.Range(0, 4)
+	sb := make([]int, rank)
+	for i := range sb {
+		j := len(sa) - rank + i
+		switch {
+		case j >= 0 && r.Chance(0.5):
+			sb[i] = sa[j]
+		case r.Chance(0.7):
+			sb[i] = 1
+		default:
+			sb[i] = r.Range(0, 3)
+		}
+	}
+	if r.Bool() {
+		sa, sb = sb, sa
+	}
+	n := len(sa)
+	if len(sb) > n {
+		n = len(sb)
+	}
+	want := make([]int, n)
+	compatible := true
+	for i := 0; i < n; i++ {
+		ea, eb := 1, 1
+		if j := len(sa) - n + i; j >= 0 {
+			ea = sa[j]
+		}
+		if j := len(sb) - n + i; j >= 0 {
+			eb = sb[j]
+		}
+		switch {
+		case ea == eb, eb == 1:
+			want[i] = ea
+		case ea == 1:
+			want[i] = eb
+		default:
+			compatible = false
+		}
+	}
+	uni := compatible && ref.ShapeEq(want, sa)
+	dt := gen.Data13[r.Intn(len(gen.Data13))]
+	a, b := r.Tensor(dt, sa, gen.FillUnique, 0), r.Tensor(dt, sb, gen.FillUnique, 0)
+	c.SetCase("broadcast with zero extents %v with %v (%v)", sa, sb, dt)
+	c.Nontrivial(fmt.Sprintf("zero|%v|%v", sa, sb))
+	c.Count("pairs-with-a-zero-extent", 1)
+	for _, which := range []string{"multidir", "unidir"} {
+		ta, tb := mon.ToTensor(a), mon.ToTensor(b)
+		var ra, rb tensor.Tensor
+		o := mon.Capture(nil, func() ([]tensor.Tensor, error) {
+			var err error
+			if which == "multidir" {
+				ra, rb, err = ops.MultidirectionalBroadcast(ta, tb)
+			} else {
+				ra, rb, err = ops.UnidirectionalBroadcast(ta, tb)
+			}
+			return nil, err
+		})
+		c.Eval(1)
+		ok, shape := compatible, want
+		if which == "unidir" {
+			ok, shape = uni, sa
+		}
+		switch {
+		case o.Kind == mon.Panic:
+			c.Violation(which+":panic", "%v with %v: %s", sa, sb, o.Describe())
+		case ok && o.Kind == mon.Error:
+			c.Violation(which+":refused-valid", "compatible shapes %v and %v (zero extent) refused: %v", sa, sb, o.Err)
+		case !ok && o.Kind != mon.Error:
+			c.Violation(which+":accepted-invalid", "incompatible shapes %v and %v (zero extent) accepted", sa, sb)
+		case ok:
+			if ra == nil || rb == nil || !ref.ShapeEq([]int(ra.Shape()), shape) || !ref.ShapeEq([]int(rb.Shape()), shape) {
+				c.Violation(which+":wrong-shape", "%v with %v: result shapes %v and %v, expected %v", sa, sb, shapeOf(ra), shapeOf(rb), shape)
+			}
+		}
+		if !ref.ShapeEq([]int(ta.Shape()), sa) || !ref.ShapeEq([]int(tb.Shape()), sb) {
+			c.Violation(which+":source-modified", "%v with %v: the sources have shapes %v and %v afterwards", sa, sb, ta.Shape(), tb.Shape())
+		}
+	}
+}
+
+// c14SharedSource: "the source tensors are never modified" - not even for the duration
+// of a call: one tensor object serves as the second source of calls made from several
+// goroutines at once (each with its own first source), as a weight shared by concurrent
+// Runs does. Every call must succeed with the right operands; the shared source keeps
+// its shape and contents.
+func c14SharedSource(c *Ctx) {
+	r := c.R
+	sa := r.Shape(2, 4, 4, 200)
+	sb := append([]int{}, sa[r.Range(1, len(sa)-1):]...)
+	for i := range sb {
+		if r.Chance(0.3) {
+			sb[i] = 1
+		}
+	}
+	dt := ref.F32
+	b := r.Tensor(dt, sb, gen.FillUnique, 0)
+	tb := mon.ToTensor(b)
+	fb := mon.Fp(tb)
+	wantB := ref.BroadcastTo(b, sa)
+	uni := r.Bool()
+	const G, N = 8, 40
+	c.SetCase("one second source %v shared by %d goroutines x %d calls with first sources %v (unidirectional %v)", sb, G, N, sa, uni)
+	c.Nontrivial(fmt.Sprintf("shared|%v|%v|%v", sa, sb, uni))
+	c.Count("shared-source-trials", 1)
+	var mu sync.Mutex
+	var fails []string
+	var wg sync.WaitGroup
+	start := make(chan struct{})
+	for g := 0; g < G; g++ {
+		a := r.Tensor(dt, sa, gen.FillUnique, 0)
+		wg.Add(1)
+		go func(g int, a *ref.T) {
+			defer wg.Done()
+			<-start
+			for n := 0; n < N; n++ {
+				ta := mon.ToTensor(a)
+				o := mon.Capture(nil, func() ([]tensor.Tensor, error) {
+					var x, y tensor.Tensor
+					var err error
+					if uni {
+						x, y, err = ops.UnidirectionalBroadcast(ta, tb)
+					} else {
+						x, y, err = ops.MultidirectionalBroadcast(ta, tb)
+					}
+					if err != nil {
+						return nil, err
+					}
+					return []tensor.Tensor{x, y}, nil
+				})
+				if v := Judge(Expect{Kind: MustEqual, Mode: CmpBits, Want: Exact(a, wantB)}, o); !v.OK {
+					mu.Lock()
+					fails = append(fails, fmt.Sprintf("goroutine %d call %d: %s: %s", g, n, v.Kind, trunc(v.Detail, 300)))
+					mu.Unlock()
+					return
+				}
+			}
+		}(g, a)
+	}
+	close(start)
+	wg.Wait()
+	c.Eval(G * N)
+	if len(fails) > 0 {
+		c.Violation("shared-source:call-disturbed-by-a-concurrent-call", "%d of %d goroutines failed, first: %s", len(fails), G, fails[0])
+	}
+	if ok, what := fb.Equal(mon.Fp(tb)); !ok {
+		c.Violation("shared-source:source-modified", "the shared second source %v changed: %s", sb, what)
+	}
+}
+
+func shapeOf(t tensor.Tensor) []int {
+	if t == nil {
+		return nil
+	}
+	return []int(t.Shape())
 }
 
 func compatibleWith(r *gen.R, sa []int) []int {
